@@ -831,7 +831,7 @@ def values_that_are_specs_are_data(col):
     collect = lambda *a, **k: (a, k)
     stored_t, stored_spec, stored_val = T['w'], Spec('w'), Val(3)
     mk = lambda: {'f': collect, 'w': 'WVAL', 'vt': stored_t, 'vs': stored_spec, 'vv': stored_val, 'lst': [stored_t], 'dct': {'k': stored_t},
-                  'obj': Helper() if False else None, 'tbl': {stored_t: 'keyed by a T object'}}
+                  'tbl': {stored_t: 'keyed by a T object'}}
     cases = [
         ('call positional <- stored T', lambda: T['f'](T['vt']), lambda t: t['f'](t['vt'])),
         ('call keyword <- stored T', lambda: T['f'](k=T['vt']), lambda t: t['f'](k=t['vt'])),
@@ -859,6 +859,48 @@ def values_that_are_specs_are_data(col):
                           '%s: glom gives %r, the same operations applied directly give %r' % (desc, got, want), None)
 
 
+def call_arguments_are_evaluated_before_the_call(col):
+    """as in Python, where f(x) evaluates x before it tries to call f: when the value reached so far cannot be called, a T / Spec
+    argument has nevertheless been evaluated (observed through a counting callable), and when that argument itself fails, ITS failure
+    is what surfaces (target['n'](target['missing']) raises the KeyError, not "int is not callable")"""
+    from glom import Spec, PathAccessError
+    seen = []
+
+    def counting(t):
+        seen.append('arg')
+        return 1
+    cases = [
+        ('positional', lambda: T['n'](T['missing'])), ('keyword', lambda: T['n'](k=T['missing'])),
+        ('second positional', lambda: T['n'](1, T['missing'])), ('inside a list literal', lambda: T['n']([T['missing']])),
+        ('after an attribute step', lambda: T['o'].attr(T['missing'])), ('Spec argument', lambda: T['n'](Spec('missing'))),
+        ('None is not callable either', lambda: T['none'](T['missing'])),
+    ]
+    for desc, mk in cases:
+        t = {'n': 5, 'none': None, 'o': Helper(1)}
+        try:
+            if 'attr' in desc:
+                t['o'].attr = 'a string'
+        except Exception:
+            continue
+        got = call(G, t, mk())
+        col.case(('args-before-call', desc), True)
+        col.count('glom_evaluations')
+        col.count('failing_cases')
+        if got.ok or not isinstance(got.exc, PathAccessError) or not isinstance(got.exc.exc, KeyError):
+            col.violation('C02/argument-failure-hidden-by-a-later-failure-of-the-call', '%s with a non-callable value and a failing argument: %r; '
+                          "evaluated directly the argument fails first (KeyError('missing'))" % (desc, got), None)
+    for desc, mk in (('positional', lambda: T['n'](Spec(counting))), ('keyword', lambda: T['n'](k=Spec(counting))),
+                     ('callable value', lambda: T['f'](Spec(counting))), ('callable value, twice', lambda: T['f'](Spec(counting), Spec(counting)))):
+        del seen[:]
+        got = call(G, {'n': 5, 'f': lambda *a, **k: len(a) + len(k)}, mk())
+        col.case(('args-before-call', 'observed', desc), True)
+        col.count('glom_evaluations')
+        want_n = 2 if 'twice' in desc else 1
+        if len(seen) != want_n:
+            col.violation('C02/call-argument-evaluated-%s' % ('more-than-once' if len(seen) > want_n else 'not-at-all'),
+                          '%s: the argument spec ran %d times (outcome %r), expected %d' % (desc, len(seen), got, want_n), None)
+
+
 def _same_deep(a, b):
     """identity for spec-like leaves (T objects define == structurally only on Path), equality + type elsewhere"""
     if type(a) is not type(b):
@@ -882,6 +924,7 @@ def run(ctx):
         systematic(col, rng)
         literal_arguments_are_per_evaluation(col)
         values_that_are_specs_are_data(col)
+        call_arguments_are_evaluated_before_the_call(col)
     for i in range(ctx.n(15000, 80000)):
         build = target_recipe(rng)
         e = gen_expr(rng, build, want_fail=rng.random() < 0.4)
